@@ -40,11 +40,15 @@ class Search:
         f = self.f
         # ---- main loop: while (!W.empty())
         loops = []
+        self.extra_exit = []
         for n in f.nodes:
             if n['k'] == 'WhileStmt':
-                c = strip_conv(self.T(n['cond']))
-                if c[0] == 'un' and c[1] == '!' and c[3][0] == 'mcall' and c[3][1].endswith('::empty') and self._local(c[3][2]):
-                    loops.append((n, c[3][2]))
+                cjs = _conj(strip_conv(self.T(n['cond'])))
+                for c in cjs:
+                    c = strip_conv(c)
+                    if c[0] == 'un' and c[1] == '!' and c[3][0] == 'mcall' and c[3][1].endswith('::empty') and self._local(c[3][2]):
+                        loops.append((n, c[3][2]))
+                        self.extra_exit = [x for x in cjs if strip_conv(x) != c]
         if len(loops) != 1:
             self.unknown.append('expected exactly one `while (!worklist.empty())` loop, found %d' % len(loops))
             return
@@ -201,6 +205,13 @@ class Search:
         return out
 
 
+def _conj(t):
+    t0 = strip_conv(t)
+    if t0[0] == 'bin' and t0[1] == '&&':
+        return _conj(t0[2]) + _conj(t0[3])
+    return [t]
+
+
 def implied(t, pol):
     """atoms implied by a branch outcome: (A && B) true => A true, B true; (A || B) false => both false"""
     t0 = t
@@ -229,6 +240,18 @@ def check_search(m, f, schema, res_wl, res_bound):
         res.fail(Finding(res.rule, disp, '%s %s' % (schema, check), f.nloc(nid) if nid is not None else f.where(),
                          '%s conformance (%s): %s' % (schema, check, msg)))
 
+    if not s.unknown and getattr(s, 'extra_exit', None):
+        cond = ' && '.join(show(x, f.unit) for x in s.extra_exit)
+        if schema == 'S-BFS':
+            s.unknown.append('the main loop has the additional exit condition `%s`; early termination of the single-parent '
+                             'search can be sound (all information is set at discovery) but the rule cannot decide it' % cond)
+        else:
+            s.problems.append(('exhaustive', s.loop['i'],
+                               'the main loop stops when `%s` fails although the worklist may still hold vertices: %s'
+                               % (cond, 'predecessor lists are completed only when every parent has been expanded, so queued '
+                                  'vertices that are never scanned leave shortest-path predecessors unrecorded'
+                                  if schema == 'S-BFS-ALL' else
+                                  'queued vertices that are never expanded leave improvements unpropagated')))
     if s.unknown:
         for w in s.unknown:
             res_wl.broken('F-WL: %s is not in a recognised worklist shape: %s' % (disp, w))
